@@ -2,11 +2,12 @@
 // connections while pushers and non-blocking consumers run; schedule points (verif build tag) park a
 // chosen client inside the block/wake loop so that pushes, CLIENT UNBLOCK and steals can be placed at
 // every step of the protocol.
-//   C11: conservation (every pushed element is consumed exactly once or still in its list), list order
-//        per consumer, longest waiter first, no waiter left blocked on a non-empty list.
-//   C12: timeouts (not early, promptly), timeout 0 waits, CLIENT UNBLOCK TIMEOUT|ERROR ends exactly the
-//        target and reports 1 only for a blocked client, closed connections stop competing, the
-//        connection is reusable afterwards, blocking commands inside MULTI do not block.
+//
+//	C11: conservation (every pushed element is consumed exactly once or still in its list), list order
+//	     per consumer, longest waiter first, no waiter left blocked on a non-empty list.
+//	C12: timeouts (not early, promptly), timeout 0 waits, CLIENT UNBLOCK TIMEOUT|ERROR ends exactly the
+//	     target and reports 1 only for a blocked client, closed connections stop competing, the
+//	     connection is reusable afterwards, blocking commands inside MULTI do not block.
 package main
 
 import (
